@@ -23,6 +23,11 @@ import (
 //	serve <method> <path>          Router.ServeHTTP
 //	ckeys                          cache keys in recency order
 //	reopt                          WithOptions after registration
+//	wopt <mask> <cap|-> <form>     one more Router.WithOptions(...) call (multi-step configuration): mask bits 1 strict, 2 fallback,
+//	                               4 notAllowed, 8 caching are switched on, cap = MaxNumCaches ('-': not given); form%3: 0 MaxNumCaches
+//	                               before EnableCaching, 1 after it, 2 CachingWithNum; form>=3: the cache options come first
+//	buildq <name> <args> <style> <expect>   style: 0 rux.M, 1 key/value pairs, 2 a new BuildRequestURL builder, 3 the ONE builder
+//	                               object of this router case, reused by every style-3 call (whatever the route)
 type routeEngine struct{ name string }
 
 func init() {
@@ -107,6 +112,11 @@ func (e routeEngine) Corpus() []Case {
 			{Ops: []string{"new 8 0 -", regOp(1, nil, "/users/{id}", false), q(g, "/users/1"), q(g, "/users/1"), "ckeys"}},
 			// F6: caching router without routes
 			{Ops: []string{"new 8 3 -", q(g, "/a/b"), sv(g, "/x"), "ckeys"}},
+			// multi-step configuration: the capacity in force is the one given LAST (a cache created by an earlier step must not survive)
+			{Ops: []string{"new 8 1000 -", "wopt 0 2 0", regOp(1, nil, "/users/{id}", false), q(g, "/users/1"), q(g, "/users/2"), q(g, "/users/3"), "ckeys", q(g, "/users/1"), "ckeys", "wopt 0 9 0", q(g, "/users/2"), "ckeys"}},
+			{Ops: []string{"new 0 0 -", "wopt 8 - 0", "wopt 1 1 3", regOp(1, nil, "/blog/{id}", false), q(g, "/blog/7"), q(g, "/blog/8"), "ckeys", q(g, "/blog/8/"), sv(g, "/blog/7"), "ckeys"}},
+			// capacity first and the caching switch later; the capacity raised by a later step
+			{Ops: []string{"new 4 0 -", "wopt 0 1 0", q(g, "/x"), "wopt 8 - 0", "ckeys", "wopt 10 3 5", regOp(1, nil, "/{a}", false), regOp(2, []string{p}, "/*", false), q(g, "/x"), q(g, "/y"), q(g, "/z"), q(g, "/w"), q(p, "/x"), "ckeys"}},
 		}
 	case "url":
 		kv := func(pairs ...string) string {
@@ -138,6 +148,13 @@ func (e routeEngine) Corpus() []Case {
 			{Ops: []string{"new 0 0 -", regn(1, "home", "/home", 0), bq("home", "-", 1, 1), bq("home", kv("q", "1"), 0, 1)}},
 			// K1 (known finding): the last value ends in white space or '/'
 			{Ops: []string{"new 0 0 -", regn(1, "u", "/u/{name}", 0), bq("u", kv("{name}", "é "), 0, 1)}, Tag: "k1"},
+			// style 3: ONE builder object for several routes and for the same route twice: every build replaces the placeholders of ITS route
+			{Ops: []string{"new 0 0 -", regn(1, "user", "/users/{id:\\d+}", 0), regn(2, "post", "/posts/{slug}", 1), regn(3, "tp", "/tags/{tag}/page/{num}", 2), regn(4, "home", "/home", 0),
+				bq("user", kv("{id}", "7"), 3, 1), bq("user", kv("{id}", "8", "q", "1"), 3, 1), bq("post", kv("{slug}", "hello"), 3, 2), bq("tp", kv("{tag}", "go", "{num}", "3"), 3, 3),
+				bq("home", "-", 3, 4), bq("user", kv("{id}", "9"), 3, 1), bq("post", kv("{slug}", "x"), 2, 2)}},
+			// the shared builder is first used for a static route, then for two dynamic ones
+			{Ops: []string{"new 0 0 -", regn(1, "home", "/home", 0), regn(2, "a", "/a/{x}", 0), regn(3, "b", "/b/{y}/{x:[a-z]+}", 1),
+				bq("home", kv("q", "1"), 3, 1), bq("a", kv("{x}", "1"), 3, 2), bq("b", kv("{x}", "k", "{y}", "2"), 3, 3), bq("a", kv("{x}", "{y}"), 3, 2)}},
 		}
 	default: // total
 		return []Case{
@@ -379,6 +396,11 @@ func (e routeEngine) Gen(r *Rand, tier string) Case {
 	var routes []genRoute
 	staticSeen := map[string]bool{}
 	ops := []string{fmt.Sprintf("new %d %d %s", mask, cap, hx(icpt))}
+	rbMulti := e.name == "rcache" && r.Chance(1, 4)
+	if rbMulti { // the same final options, reached by New(...) + WithOptions(...) calls
+		ops = rbConfigSteps(r, mask, cap, icpt)
+		tag += "-steps"
+	}
 	for i := 1; i <= nRoutes; i++ {
 		g := genPattern(r, i, shared)
 		if r.Chance(1, 10) && mask&2 != 0 {
@@ -415,6 +437,9 @@ func (e routeEngine) Gen(r *Rand, tier string) Case {
 		} else {
 			ops = append(ops, regOp(g.id, ms, pat, false))
 		}
+	}
+	if rbMulti && r.Chance(1, 8) { // WithOptions after the routes exist is refused and changes nothing
+		ops = append(ops, fmt.Sprintf("wopt %d %s %d", r.Intn(16), r.Pick([]string{"-", "0", "1", "2"}), r.Intn(6)))
 	}
 	if len(routes) == 0 {
 		return Case{Ops: ops, Tag: tag}
@@ -528,6 +553,11 @@ type routeImpl struct {
 	twin     *rux.Router // same table without caching (only when caching is on)
 	caching  bool
 	accepted int
+	// multi-step configuration (wopt): the option mask accumulated so far and the intercept path of 'new'
+	rbMask int
+	rbIcpt string
+	// the shared BuildRequestURL object of buildq style 3 (created by the first such call after 'new')
+	rbShared *rux.BuildRequestURL
 }
 
 func fmtParams(ps rux.Params) string {
@@ -656,6 +686,7 @@ func (e routeEngine) Run(ops []string) (ans []string, oracle []string) {
 			mask, cap := atoi(f[1]), atoi(f[2])
 			icpt := mustUnhx(f[3])
 			im.caching = mask&8 != 0
+			im.rbMask, im.rbIcpt, im.rbShared = mask, icpt, nil
 			a = guarded(func() string {
 				im.r = newRouter(mask, cap, icpt, im.caching)
 				im.twin = nil
@@ -729,6 +760,11 @@ func (e routeEngine) Run(ops []string) (ans []string, oracle []string) {
 			}
 		case "reopt":
 			a = guarded(func() string { im.r.WithOptions(); return "ok" })
+			if strings.HasPrefix(a, "panic") {
+				a = "reject"
+			}
+		case "wopt":
+			a = guarded(func() string { return im.rbWithOptions(atoi(f[1]), f[2], atoi(f[3])) })
 			if strings.HasPrefix(a, "panic") {
 				a = "reject"
 			}
@@ -826,6 +862,8 @@ func (e routeEngine) Run(ops []string) (ans []string, oracle []string) {
 						}
 						u = im.r.BuildRequestURL(name, args...)
 					}
+				case 3: // ONE builder object for all the style-3 calls of this case
+					u = im.r.BuildURL(name, im.rbSharedBuilder(ks, vs))
 				default: // builder with Params / Queries
 					b := rux.NewBuildRequestURL()
 					ps := rux.M{}
@@ -930,6 +968,15 @@ func (e routeEngine) genURL(r *Rand, tier string) Case {
 	}
 	ops := []string{fmt.Sprintf("new %d 0 -", mask)}
 	n := r.Range(1, 5)
+	// one BuildRequestURL object reused for all (most) builds of the case, for different routes and the same route twice
+	rbShared := r.Chance(1, 4)
+	urlTag := "url"
+	if rbShared {
+		urlTag = "url-shared-builder"
+		if n < 2 {
+			n = 2
+		}
+	}
 	type named struct {
 		id   int
 		name string
@@ -963,7 +1010,7 @@ func (e routeEngine) genURL(r *Rand, tier string) Case {
 		}
 	}
 	if len(routes) == 0 {
-		return Case{Ops: ops, Tag: "url"}
+		return Case{Ops: ops, Tag: urlTag}
 	}
 	// who owns which name now (mirror of the index, to know the expected route)
 	owner := map[string]int{}
@@ -985,7 +1032,11 @@ func (e routeEngine) genURL(r *Rand, tier string) Case {
 		names = append(names, k)
 	}
 	sort.Strings(names)
-	for i := r.Range(2, 8); i > 0; i-- {
+	nBuilds := r.Range(2, 8)
+	if rbShared && nBuilds < 4 {
+		nBuilds = 4
+	}
+	for i := nBuilds; i > 0; i-- {
 		if len(names) == 0 || r.Chance(1, 10) {
 			ops = append(ops, "getroute "+hx(r.Pick([]string{"a", "b", "n", "zz", ""})))
 			continue
@@ -1025,8 +1076,124 @@ func (e routeEngine) genURL(r *Rand, tier string) Case {
 		if len(uniq) > 0 {
 			args = strings.Join(uniq, ",")
 		}
-		ops = append(ops, fmt.Sprintf("buildq %s %s %d %d", hx(nm), args, r.Intn(3), owner[nm]))
+		style := r.Intn(3)
+		if rbShared && r.Chance(3, 4) {
+			style = 3
+		}
+		ops = append(ops, fmt.Sprintf("buildq %s %s %d %d", hx(nm), args, style, owner[nm]))
 		ops = append(ops, "getroute "+hx(nm))
 	}
-	return Case{Ops: ops, Tag: "url"}
+	return Case{Ops: ops, Tag: urlTag}
+}
+
+/**************** multi-step configuration (wopt) and the shared URL builder (buildq style 3) ****************/
+
+// rbConfigSteps returns the ops that build a router with the final options (mask, cap, icpt) in several steps:
+// New(some of the options) followed by 1-3 WithOptions(...) calls. Options can only be switched on, a capacity can
+// be given again: the capacity in force is the last one. The intermediate capacities are drawn from the same set
+// as the final one, so the cache created by an earlier step may be larger or smaller than the final capacity.
+func rbConfigSteps(r *Rand, mask, cap int, icpt string) []string {
+	caps := []int{0, 1, 1, 2, 2, 3, 4, 1000}
+	rest := mask & 15 // bits still to be switched on
+	keep := mask &^ 15
+	sub := func(bits int) int { // a random subset of the remaining bits
+		m := 0
+		for _, b := range []int{1, 2, 4, 8} {
+			if bits&b != 0 && r.Bool() {
+				m |= b
+			}
+		}
+		return m
+	}
+	m0 := sub(rest)
+	rest &^= m0
+	cap0 := r.PickInt(caps)
+	cur := 1000 // MaxNumCaches in force (the 'new' op passes its capacity only together with the caching switch)
+	if m0&8 != 0 {
+		cur = cap0
+	}
+	ops := []string{fmt.Sprintf("new %d %d %s", keep|m0, cap0, hx(icpt))}
+	steps := r.Range(1, 3)
+	for i := 1; i <= steps; i++ {
+		if r.Chance(1, 5) { // a lookup on the still empty router between two configuration steps
+			ops = append(ops, "q "+hx("GET")+" "+hx(r.Pick([]string{"/", "/users/1", "/a/b"})))
+		}
+		m, c := sub(rest), "-"
+		if r.Bool() {
+			cur = r.PickInt(caps)
+			c = fmt.Sprint(cur)
+		}
+		if i == steps {
+			m = rest
+			if cur != cap {
+				cur = cap
+				c = fmt.Sprint(cap)
+			}
+		}
+		if m&8 == 0 && r.Chance(1, 6) {
+			m |= mask & 8 // the caching switch is given (again) in this step
+		}
+		rest &^= m
+		ops = append(ops, fmt.Sprintf("wopt %d %s %d", m, c, r.Intn(6)))
+	}
+	return ops
+}
+
+// rbWithOptions is the op 'wopt': one more Router.WithOptions call on the router of the case. The twin (same
+// options without the cache) is re-created from the accumulated options: no route exists when the call succeeds.
+func (im *routeImpl) rbWithOptions(mask int, capS string, form int) string {
+	var flags, cache []func(*rux.Router)
+	if mask&1 != 0 {
+		flags = append(flags, rux.StrictLastSlash)
+	}
+	if mask&2 != 0 {
+		flags = append(flags, rux.HandleFallbackRoute)
+	}
+	if mask&4 != 0 {
+		flags = append(flags, rux.HandleMethodNotAllowed)
+	}
+	caching := mask&8 != 0
+	if capS != "-" {
+		n := uint16(atoi(capS))
+		switch {
+		case caching && form%3 == 2:
+			cache = append(cache, rux.CachingWithNum(n))
+		case caching && form%3 == 1:
+			cache = append(cache, rux.EnableCaching, rux.MaxNumCaches(n))
+		case caching:
+			cache = append(cache, rux.MaxNumCaches(n), rux.EnableCaching)
+		default:
+			cache = append(cache, rux.MaxNumCaches(n))
+		}
+	} else if caching {
+		cache = append(cache, rux.EnableCaching)
+	}
+	opts := append(flags, cache...)
+	if form >= 3 {
+		opts = append(cache, flags...)
+	}
+	im.r.WithOptions(opts...) // panics when a route exists
+	im.rbMask |= mask & 15
+	if im.rbMask&8 != 0 {
+		im.caching = true
+		im.twin = newRouter(im.rbMask, 0, im.rbIcpt, false)
+	}
+	return "ok"
+}
+
+// rbSharedBuilder hands out the ONE BuildRequestURL object of the case, loaded with the arguments of this call.
+func (im *routeImpl) rbSharedBuilder(ks, vs []string) *rux.BuildRequestURL {
+	if im.rbShared == nil {
+		im.rbShared = rux.NewBuildRequestURL()
+	}
+	ps := rux.M{}
+	qs := url.Values{}
+	for i := range ks {
+		if strings.ContainsAny(ks[i], "{}") {
+			ps[ks[i]] = vs[i]
+		} else {
+			qs.Add(ks[i], vs[i])
+		}
+	}
+	return im.rbShared.Params(ps).Queries(qs)
 }
